@@ -94,3 +94,20 @@ func TestC01FloatDec(t *testing.T) {
 func TestC08LexerEscapeAtStart(t *testing.T) {
 	evalNoPanic(t, "{{-- --}\\@end", nil)
 }
+
+func TestC01Precedence(t *testing.T) {
+	for inp, want := range map[string]string{
+		`{{ 8 / 2 / 2 }}`:          "2",
+		`{{ 8 / 2 * 3 }}`:          "12",
+		`{{ 3 == 1 + 2 }}`:         "1",
+		`{{ 2 * 3 % 4 }}`:          "2",
+		`{{ x = 1 + 2 }}{{ x }}`:   "3",
+		`{{ 1 + 2 * 3 }}`:          "7",
+		`{{ 10 - 2 - 3 }}`:         "5",
+	} {
+		out, err := evalNoPanic(t, inp, nil)
+		if err != nil || out != want {
+			t.Errorf("%s: got %q %v want %q", inp, out, err, want)
+		}
+	}
+}
